@@ -32,6 +32,11 @@ type A4Case struct {
 	// IfSel selects which of the interfaces with a 6-byte hardware address the listener is
 	// bound to / the request arrives on
 	IfSel int `json:"ifsel,omitempty"`
+	// SrcPort is the UDP source port of the request (0 = 68); Opt82 adds a relay agent information option
+	SrcPort int    `json:"srcport,omitempty"`
+	SrcIP   string `json:"srcip,omitempty"`
+	Opt82   string `json:"opt82,omitempty"` // hex
+	Opt61   bool   `json:"opt61,omitempty"`
 }
 
 // A4Seq is a sequence of rows handled one after the other by the same server process: state
@@ -108,6 +113,10 @@ func GenA4(t *rapid.T) A4Case {
 			c.CIAddr = rnd("ci")
 		}
 	}
+	c.SrcPort = rapid.SampledFrom([]int{0, 0, 67, 68, 1024, 6767, 65535, 1}).Draw(t, "srcport")
+	c.SrcIP = rapid.SampledFrom([]string{"", "10.10.10.201", "192.0.2.7", "0.0.0.0", "169.254.1.1"}).Draw(t, "srcip")
+	c.Opt82 = rapid.SampledFrom([]string{"", "", "01046369726332", "0104636972630206aabbccddeeff", "13021a0a", "0103616263130204d2"}).Draw(t, "opt82")
+	c.Opt61 = rapid.Bool().Draw(t, "opt61")
 	c.YIAddr = net.IPv4(10, 10, 10, byte(rapid.IntRange(2, 250).Draw(t, "yi"))).String()
 	mac := rapid.SliceOfN(rapid.Byte(), 6, 6).Draw(t, "chaddr")
 	c.CHAddr = hex.EncodeToString(mac)
@@ -124,6 +133,10 @@ func EnumA4() []A4Case {
 					for _, act := range []string{"addr", "zero", "nak"} {
 						for _, lst := range []string{"bound", "unbound", "unbound-other"} {
 							out = append(out, A4Case{GIAddr: gi, CIAddr: ci, Broadcast: bc, Request: rq, Action: act, YIAddr: "10.10.10.42", Listener: lst, CHAddr: "02aabbccddee"})
+							if lst == "unbound" && !bc {
+								// the same row arriving from another source port, with relay agent information
+								out = append(out, A4Case{GIAddr: gi, CIAddr: ci, Broadcast: bc, Request: rq, Action: act, YIAddr: "10.10.10.42", Listener: lst, CHAddr: "02aabbccddee", SrcPort: 6767, SrcIP: "192.0.2.7", Opt82: "01046369726332", Opt61: true})
+							}
 						}
 					}
 				}
@@ -180,6 +193,19 @@ func ExecA4(c A4Case) (res core.Result) {
 		mt = "03"
 	}
 	p.Opts = []gen.Opt4{{Code: 53, Hex: mt}}
+	if c.Opt82 != "" {
+		p.Opts = append(p.Opts, gen.Opt4{Code: 82, Hex: c.Opt82})
+	}
+	if c.Opt61 {
+		p.Opts = append(p.Opts, gen.Opt4{Code: 61, Hex: "01" + c.CHAddr})
+	}
+	src := &net.UDPAddr{IP: net.IPv4(10, 10, 10, 201), Port: 68}
+	if c.SrcPort != 0 {
+		src.Port = c.SrcPort
+	}
+	if c.SrcIP != "" {
+		src.IP = net.ParseIP(c.SrcIP)
+	}
 	isNak := c.Action == "nak"
 	// the statement's cascade
 	var wantPeer *net.UDPAddr
@@ -203,7 +229,7 @@ func ExecA4(c A4Case) (res core.Result) {
 		// the frame would have to leave on an interface that does not exist: nothing can be asserted but "no crash"
 		res.Classes = append(res.Classes, "l2-on-missing-interface")
 	}
-	sent, pan := feed4(cap4, p.Bytes(), &ipv4.ControlMessage{IfIndex: recvIdx}, &net.UDPAddr{IP: net.IPv4(10, 10, 10, 201), Port: 68})
+	sent, pan := feed4(cap4, p.Bytes(), &ipv4.ControlMessage{IfIndex: recvIdx}, src)
 	if pan != nil {
 		res.Viol = core.Violate("C15/panic", "HandleMsg4 panicked: %v", pan)
 		return
